@@ -141,9 +141,19 @@ def new_delete_rule(prog, res):
                     v = g.vertex_of.get(n['id'])
                     if v is not None:
                         dels.add(v)
+            # the function hands the allocation back (`return p;`): it is an allocation wrapper, judged where its result is stored
+            handed_back = set()
+            for r_ in f.all_nodes({'ReturnStmt'}):
+                if r_.get('ch'):
+                    rm = f.nodes[f.strip(r_['ch'][0], 'all')]
+                    if rm['k'] == 'DeclRefExpr' and rm['decl'].get('id') == key[2] and g.vertex_of.get(r_['id']) is not None:
+                        handed_back.add(g.vertex_of[r_['id']])
             for _, nid, arr in srcs:
                 nv = g.vertex_of.get(nid)
                 if nv is None:
+                    continue
+                if handed_back and g.NEXIT not in g.reach([nv], avoid=dels | handed_back):
+                    res.ok('new-delete', 'local %s handed back to the caller' % key[3], f.loc(nid), 'every normal path releases the buffer or returns it', function=f.sig, expr='leak:' + key[3])
                     continue
                 if g.NEXIT in g.reach([nv], avoid=dels):
                     res.viol('new-delete', 'local %s' % key[3], f.loc(nid), 'allocated buffer is not released on every normal path', function=f.sig, expr='leak:' + key[3])
